@@ -9,7 +9,7 @@ applied without one.
 The digest is a parameter `D` (hex ∘ SHA-1 in the implementation); where a theorem needs it, the absence of a
 collision between the two preimages at hand is an explicit hypothesis.
 -/
-import ZoektModel.C38.Lemmas
+import ZoektModel.C38.Capstone
 import ZoektModel.Generated.C38Options
 namespace ZoektModel.C38
 open ZoektModel
@@ -242,6 +242,104 @@ theorem merge_keeps_old_metadata (r x r' : Repo) (m : Bool) (h : mergeMutable r 
     · simp [hid, hnm] at h
   · simp [hid] at h
 
+/-! ## the hash decides the hashed options; the statement outside the known findings -/
+
+/-- **equal ⇒ the hashed options are the same**: if the stored hash of the repository was computed from options
+    `a`, the digest does not collide on the two preimages, and the large-file patterns need no escaping in `%q`,
+    then `IndexState = equal` for `b` implies that `a` and `b` agree on SizeMax, DisableCTags, CTagsPath,
+    CTagsMustSucceed and LargeFiles (the preimage ctagsPath‖%t‖%d‖%q‖%t is uniquely decodable) -/
+theorem equal_same_hashed_partial (a b : Opts) (fmt feat : Nat) (repos : List Repo)
+    (hbuilt : ∀ r ∈ repos, r.name = b.repo.name → r.indexOptions = getHashWith D a)
+    (hnc : D (preimage a) = D (preimage b) → preimage a = preimage b)
+    (hpa : ∀ s ∈ a.largeFiles, plain s.toList) (hpb : ∀ s ∈ b.largeFiles, plain s.toList)
+    (h : indexStateWith (getHashWith D) V (.shard fmt feat repos) b = .equal) :
+    a.sizeMax = b.sizeMax ∧ a.disableCTags = b.disableCTags ∧ a.ctagsPath = b.ctagsPath ∧
+    a.cTagsMustSucceed = b.cTagsMustSucceed ∧ a.largeFiles = b.largeFiles := by
+  obtain ⟨_, _, _, r, hd, _, hf, hio, _, hnm, _⟩ := equal_implies_same D V _ b h
+  simp only [Disk.shard.injEq] at hd
+  obtain ⟨rfl, rfl, rfl⟩ := hd
+  have hmem := List.mem_of_find?_eq_some hf
+  have := hbuilt r hmem hnm
+  rw [hio] at this
+  obtain ⟨h1, h2, h3, h4, h5⟩ := preimage_injective_partial a b hpa hpb (hnc this.symm)
+  exact ⟨h3, h5, h1, h2, h4⟩
+
+/-- **C38 on the model, outside the known findings**: for an index built from `a` (any options, any description)
+    and any requested `b`, the executable statement `checkP` holds of the model's `IndexState` — provided the pair
+    does not differ in the three unhashed options, in `Metadata`, or by a removed RawConfig key (the five known
+    findings), the digest does not collide on the two preimages, and the large-file patterns need no escaping -/
+theorem C38_checkP_partial (a b : Opts) (fmt feat : Nat)
+    (hv : versionMismatch V fmt feat = false)
+    (hnc : D (preimage a) = D (preimage b) → preimage a = preimage b)
+    (hpa : ∀ s ∈ a.largeFiles, plain s.toList) (hpb : ∀ s ∈ b.largeFiles, plain s.toList)
+    (htrig : a.trigramMax = b.trigramMax) (hscip : a.scipCTagsPath = b.scipCTagsPath)
+    (hlmap : a.languageMap = b.languageMap)
+    (hmeta : sameMap a.repo.metadata b.repo.metadata = true) (hrem : noRemovedKey a.repo b.repo = true) :
+    checkP a b (indexStateWith (getHashWith D) V
+      (.shard fmt feat [{ a.repo with indexOptions := getHashWith D a }]) b) = true := by
+  generalize hr : ({ a.repo with indexOptions := getHashWith D a } : Repo) = r
+  have hrn : r.name = a.repo.name := by rw [← hr]
+  have hrid : r.id = a.repo.id := by rw [← hr]
+  have hrbr : r.branches = a.repo.branches := by rw [← hr]
+  have hrio : r.indexOptions = D (preimage a) := by rw [← hr]; rfl
+  unfold checkP
+  by_cases hname : a.repo.name = b.repo.name
+  · have hf : [r].find? (fun c => c.name = b.repo.name) = some r := by
+      simp [List.find?, hrn, hname]
+    by_cases hH : hashedEq a b
+    · have hcd := contentDiff_none a b hH htrig hscip hlmap
+      have hio : r.indexOptions = D (preimage b) := by rw [hrio, preimage_congr a b hH]
+      by_cases hid : a.repo.id = b.repo.id
+      · by_cases hbr : a.repo.branches = b.repo.branches
+        · have hcr : contentRepoDiff a.repo b.repo = none := by simp [contentRepoDiff, hid, hname, hbr]
+          rcases meta_only_no_reindex D V fmt feat [r] r b hv hf hio (by rw [hrbr, hbr]) (by rw [hrid, hid]) with hs | hs
+          · rw [hs]; simp [violation, hcd, hcr]
+          · obtain ⟨_, _, _, r', hd, _, hf', _, _, _, _, hu, hc, hfl, hl, hraw⟩ := equal_implies_same D V _ b hs
+            simp only [Disk.shard.injEq] at hd
+            obtain ⟨rfl, rfl, rfl⟩ := hd
+            rw [hf] at hf'
+            simp only [Option.some.injEq] at hf'
+            subst hf'
+            rw [hs]
+            have hmd : metaDiff a.repo b.repo = none := by
+              apply metaDiff_none
+              · rw [← hu, ← hr]
+              · rw [← hc, ← hr]
+              · rw [← hfl, ← hr]
+              · rw [← hl, ← hr]
+              · apply rawApplied_of_equal
+                intro kv hkv
+                have := hraw kv hkv
+                rw [← hr] at this
+                exact this
+              · exact hrem
+              · exact hmeta
+            simp [violation, hcd, hcr, hmd]
+        · have hcr : (contentRepoDiff a.repo b.repo).isSome = true := by simp [contentRepoDiff, hid, hname, hbr]
+          obtain ⟨f, hf2⟩ := Option.isSome_iff_exists.mp hcr
+          rcases content_change_reindexes D V fmt feat [r] r b hv hf (Or.inr (Or.inl (by rw [hrbr]; exact hbr))) with hs | hs
+            <;> rw [hs] <;> simp [violation, hcd, hf2]
+      · have hcr : (contentRepoDiff a.repo b.repo).isSome = true := by simp [contentRepoDiff, hid]
+        obtain ⟨f, hf2⟩ := Option.isSome_iff_exists.mp hcr
+        rcases content_change_reindexes D V fmt feat [r] r b hv hf (Or.inr (Or.inr (by rw [hrid]; exact hid))) with hs | hs
+          <;> rw [hs] <;> simp [violation, hcd, hf2]
+    · have hcd := contentDiff_some_of_not_hashedEq a b hH
+      obtain ⟨f, hf2⟩ := Option.isSome_iff_exists.mp hcd
+      have hne : r.indexOptions ≠ D (preimage b) := by
+        rw [hrio]
+        intro he
+        exact hH (preimage_injective_partial a b hpa hpb (hnc he))
+      rcases content_change_reindexes D V fmt feat [r] r b hv hf (Or.inl hne) with hs | hs
+        <;> rw [hs] <;> simp [violation, hf2]
+  · have hst : indexStateWith (getHashWith D) V (.shard fmt feat [r]) b = .corrupt := by
+      simp [indexStateWith, hv, List.find?, hrn, hname]
+    rw [hst]
+    have hcr : (contentRepoDiff a.repo b.repo).isSome = true := by
+      unfold contentRepoDiff
+      by_cases hid : a.repo.id = b.repo.id <;> simp [hid, hname]
+    obtain ⟨f, hf2⟩ := Option.isSome_iff_exists.mp hcr
+    cases hcd : contentDiff a b <;> simp [violation, hcd, hf2]
+
 /-! ## the statement on the model: false in full, with the witnesses of the known findings -/
 
 def r0 : Repo := ⟨1, "repo", [⟨"main", "v1"⟩], some [("public", "1")], "u", "", "", "", "", [("team", "search")]⟩
@@ -274,5 +372,12 @@ example : indexStateWith (getHashWith fun s => String.ofList s) ⟨16, 17, 12⟩
     { o0 with repo := { r0 with url := "other" } } = .metaOnly := by decide
 example : (mergeMutable r0 { r0 with url := "n", rawConfig := some [("fork", "1")] }).toOption.map
     (fun p => (p.1, p.2.url, p.2.rawConfig)) = some (true, "n", some [("public", "1"), ("fork", "1")]) := by decide
+
+/-- the hypotheses of `C38_checkP_partial` are satisfiable (digest = identity, SizeMax changed) -/
+example : checkP o0 { o0 with sizeMax := 5 }
+    (indexStateWith (getHashWith fun s => String.ofList s) ⟨16, 17, 12⟩
+      (.shard 16 12 [{ o0.repo with indexOptions := getHashWith (fun s => String.ofList s) o0 }]) { o0 with sizeMax := 5 }) = true :=
+  C38_checkP_partial _ ⟨16, 17, 12⟩ o0 _ 16 12 (by decide) (fun h => String.ofList_inj.mp h)
+    (by simp [o0]) (by simp [o0]) rfl rfl rfl (by decide) (by decide)
 
 end ZoektModel.C38
